@@ -697,6 +697,18 @@ func init() {
 					}
 				}
 			})
+			// every label / icon position under each box-extending style (BoundingBox has one branch per position family
+			// and style), pad 0 and 7
+			w.Phase("every label/icon position x {3d, multiple, shadow, stroke-width 15}", func() {
+				for _, st := range []string{"a.style.3d: true\n", "a.style.multiple: true\n", "a.style.shadow: true\n", "a.style.stroke-width: 15\n"} {
+					for _, p := range d2ast.LabelPositionsArray {
+						for _, pad := range []int64{0, 7} {
+							w.Eval("bbox", c29In{Src: "a -> b\n" + st + "a.label.near: " + p + "\n", Pad: pad}.String())
+							w.Eval("bbox", c29In{Src: "a\n" + st + "a.icon: " + c29Icon + "\na.icon.near: " + p + "\n", Pad: pad}.String())
+						}
+					}
+				}
+			})
 			// 2 statements, pad 0, in slices of the first statement so that the deadline is honoured.
 			// quick: unordered pairs over a 35-statement sub-alphabet; thorough: all ordered pairs of the full alphabet.
 			pairs := ds
